@@ -143,6 +143,18 @@ check('C10', 'DESIGN.md 4/C10',
       'are compared with the documented policy; follow-up losses after a '
       'success and after a finished effort are included.', TBC)
 
+check('C02', 'DESIGN.md 4/C02',
+      'property-based round trip through a real client linked to a real '
+      'server (Hypothesis-generated scripts over 8 configurations)',
+      'Generated emit/send/call scripts in both directions with generated '
+      'payloads and return values over {threaded, asyncio} x {default, '
+      'msgpack} x {binary, base64 text framing through the real engine.io '
+      'packet/payload codec}; handler arguments, order, callback arguments '
+      'and call() results are compared type-strictly with the documented '
+      'packing rule.',
+      'Trusts python-engineio\'s packet/payload codec and state machines; '
+      'engine.io transports (HTTP, WebSocket) are not exercised.')
+
 NOT_BUILT = {}
 
 
